@@ -574,6 +574,7 @@ func main() {
 	}
 	erace()
 	ereal()
+	erealSiblings()
 	explore(5*time.Second, 2*time.Second, depth, false)
 	explore(30*time.Second, 10*time.Second, depth-1, false)
 	explore(7*time.Second, 3*time.Second, depth, true)
